@@ -361,7 +361,8 @@ func (broker *Broker) recover() (send []sts.Hashed, err error) {
 			log.Debug("Ignore file without a hash:", f.GetPath())
 			return false
 		}
-		if partial, ok := lookup[f.GetName()]; ok {
+		if partial, ok := lookup[f.GetName()]; ok && partial.Hash == f.GetHash() {
+			// (a partial of another version of this file does not count)
 			log.Debug("Found partial:", f.GetName())
 			// Partially sent; need to gracefully recover
 			parts := make(chunks, len(partial.Parts))
